@@ -66,8 +66,45 @@ def run(ctx):
         ctx.count()
         ctx.nontriv(("r", k))
     ctx.sample(cases[-1])
+    # ---- single-fault mutations of well-formed lines: TLC decides applicability and the expected error class
+    from harness.props import c01
+
+    nm = 600 if quick else 15000
+    for k in range(nm):
+        f = c01.rand_format(ctx.rng)
+        rc = c01.rand_recipe(ctx.rng, f)
+        kind = ctx.rng.choice(["surplus", "unknown", "flagvalue", "stripvalue", "dropreq"])
+        j = ctx.rng.randint(1, max(1, len(f["opts"])))
+        want = {"flagvalue": ("none",), "stripvalue": ("req", "multi")}.get(kind)
+        if want:  # a hint only: TLC decides applicability (MutPre)
+            js = [i + 1 for i, o in enumerate(f["opts"]) if o["mode"] in want]
+            if js:
+                j = ctx.rng.choice(js)
+        toks = c01.render(f, rc)
+        if kind == "surplus":
+            toks = toks + ["zz9"]
+        elif kind == "unknown":
+            toks = toks + ["--zz9"]
+        elif kind in ("flagvalue", "stripvalue"):
+            if not f["opts"]:
+                continue
+            toks = toks + ["--" + L.txt(f["opts"][j - 1]["long"]) + ("=v" if kind == "flagvalue" else "")]
+        else:
+            if not rc:
+                continue
+            toks = c01.render(f, rc[:-1])
+        fobj = L.build_format(f, bool(k % 2))
+        traces.append([L.event(f, fobj, toks, False, recipe=rc, mut={"kind": kind, "j": j})])
+        cases.append({"fmt": f, "base": k % 2, "line": toks, "lenient": False, "formats": "random", "recipe": rc, "mut": {"kind": kind, "j": j}})
+        ctx.count()
+        ctx.nontriv(("m", k))
     ctx.extra["formats"] = "MC_ArgsSoup.Formats"
-    ctx.validate(SPEC, "ArgsParserTrace", "ArgsParserTrace.cfg", traces, cases=cases, name="recorded-parses", chunk=1500)
+    ctx.validate(SPEC, "ArgsParserTrace", "ArgsParserTrace.cfg", traces, cases=cases, name="recorded-parses", chunk=500)
+    ctx.extra["mutations_not_applicable"] = ctx.drift.pop("H.mutation.not_applicable", 0)
+    ctx.extra["mutations_tried"] = nm
+    ctx.drift.pop("H.recipe.not_wellformed", None)
+    if ctx.extra["mutations_not_applicable"] > 0.85 * nm:
+        raise T.MachineryError("almost no mutation applicable")
 
 
 def replay(ctx, path):
@@ -80,5 +117,8 @@ def replay(ctx, path):
     ctx.nontriv(1)
     ctx.nontriv(2)
     ctx.sample(c)
-    ctx.validate(SPEC, "ArgsParserTrace", "ArgsParserTrace.cfg", [[event(f, fobj, c["line"], c["lenient"], expect=ev0.get("expect", ""))]],
+    ctx.validate(SPEC, "ArgsParserTrace", "ArgsParserTrace.cfg",
+                 [[event(f, fobj, c["line"], c["lenient"], mut=ev0.get("mut"), recipe=ev0.get("recipe") if ev0.get("hasRecipe") else None)]],
                  cases=[c], name="replay")
+    ctx.drift.pop("H.mutation.not_applicable", None)
+    ctx.drift.pop("H.recipe.not_wellformed", None)
